@@ -136,6 +136,7 @@ type checkRun struct {
 	wall     float64
 	errs     []string
 	w        *World
+	vacuity  []map[string]string // thorough tier: outcome of the property's must-fail / must-pass corpus
 }
 
 // generate builds all obligations of a property.
@@ -203,6 +204,9 @@ func runCheck(prop, tier, repo, verif string, verbose, writeEv bool) int {
 	dischargeAll(normal, runtime.NumCPU(), qt, st, all)
 	dischargeAll(expectedFail, runtime.NumCPU(), 4*time.Second, 4*time.Second, false)
 	secondChance(normal, qt, st)
+	if tier == "thorough" {
+		run.vacuity = vacuityCorpus(verif, repo, prop)
+	}
 	run.wall = time.Since(t0).Seconds()
 	return report(run, verif, verbose, writeEv)
 }
